@@ -32,6 +32,14 @@ Proof.
   rewrite !map_map. split; apply map_ext; intros v; cbn; [reflexivity | apply eq_checks_components].
 Qed.
 
+(** on every field the generator accepts for `Eq` (C05: not customised only by attributes that do not reach `Eq`),
+    the component that must be `Eq` is the selection of `PartialEq` - the very expression the derived `==` (C01:
+    `sp_field_eq` reads `selected CPartialEq`) compares.  This is the statement "a float-like compared component can never
+    silently become `Eq`" at the level of the model. *)
+Theorem C17_asserts_what_eq_compares :
+  forall c, negb (is_own (selected CEq c) && has_custom c) = true -> eq_selected c = selected CPartialEq c.
+Proof. exact eq_selected_is_partial_eq_selection. Qed.
+
 (** what "takes part in equality" means ([eq_components] is defined through [eq_selected], SpecCmp.v): a field
     customised for `Eq` by `#[eq(..)]` / `#[ord(..)]` is compared by `==` through the MOST SPECIFIC of
     `partial_eq`, `eq`, `partial_ord`, `ord` - that expression is the one whose type must be `Eq`
@@ -50,4 +58,5 @@ Example C17_the_key_of_partial_eq_decides :
 Proof. intros. repeat split; reflexivity. Qed.
 
 Print Assumptions C17_struct.
+Print Assumptions C17_asserts_what_eq_compares.
 Print Assumptions C17_enum.
